@@ -109,6 +109,7 @@ type merged struct {
 	witnesses map[string][]Violation
 	groups    int
 	crashes   []Violation
+	digests   map[string]map[string][2]string // flavour -> case key -> (class, digest)
 }
 
 func parseLog(path string, m *merged, flavour string, prop string, seed int64, tier string) (summarySeen bool, lastOpen string, lastCase string) {
@@ -125,11 +126,22 @@ func parseLog(path string, m *merged, flavour string, prop string, seed int64, t
 			T     string `json:"t"`
 			Group string `json:"group"`
 			Case  string `json:"case"`
+			K     string `json:"k"`
+			C     string `json:"c"`
+			D     string `json:"d"`
 		}
 		if json.Unmarshal(line, &head) != nil {
 			continue
 		}
 		switch head.T {
+		case "digest":
+			if m.digests == nil {
+				m.digests = map[string]map[string][2]string{}
+			}
+			if m.digests[flavour] == nil {
+				m.digests[flavour] = map[string][2]string{}
+			}
+			m.digests[flavour][head.K] = [2]string{head.C, head.D}
 		case "begin":
 			lastOpen = head.Group
 			lastCase = ""
@@ -306,6 +318,40 @@ func Orchestrate(cfg OrchConfig) int {
 		v := Violation{Prop: p.ID, Sig: sig, Group: open, Case: lastCase, Desc: map[string]string{"stderr": r.errPath, "first": fatal}, Flavour: r.flavour, Seed: cfg.Seed, Tier: cfg.Tier}
 		m.violBy[sig]++
 		m.witnesses[sig] = append(m.witnesses[sig], v)
+	}
+
+	// offline checker over the recorded outcome logs: the same case must have the same canonical outcome in every build flavour
+	if base := m.digests["plain"]; base != nil {
+		compared := 0
+		for fl, dm := range m.digests {
+			if fl == "plain" {
+				continue
+			}
+			keys := make([]string, 0, len(dm))
+			for k := range dm {
+				keys = append(keys, k)
+			}
+			sort.Strings(keys)
+			for _, k := range keys {
+				b, ok := base[k]
+				if !ok {
+					continue
+				}
+				compared++
+				if b[1] != dm[k][1] {
+					sig := Sig("differs-from-default-build", dm[k][0]) + "@" + fl
+					m.violBy[sig]++
+					if len(m.witnesses[sig]) < maxWitnessPerSig {
+						grp, cs := k, k
+						if i := strings.Index(k, "::"); i >= 0 {
+							grp, cs = k[:i], k[i+2:]
+						}
+						m.witnesses[sig] = append(m.witnesses[sig], Violation{Prop: p.ID, Sig: sig, Group: grp, Case: cs, Want: "default build: " + b[1], Got: fl + " build: " + dm[k][1], Flavour: fl, Seed: cfg.Seed, Tier: cfg.Tier})
+					}
+				}
+			}
+		}
+		m.extra["outcomes_compared_across_builds"] += compared
 	}
 
 	raceBlocks, raceDistinct, harnessRaces := 0, 0, 0
